@@ -45,7 +45,10 @@ Inductive oop :=
 | FCopyConstruct (t : bool)                    (* { F c(ft); } *)
 | FMoveConstruct (t : bool)                    (* { F c(move(ft)); }  ft is empty afterwards *)
 | FSwap | FSelfSwap (t : bool)
-| FInvoke (t : bool).                          (* ft() *)
+| FInvoke (t : bool)                           (* ft() *)
+(* optional / expected: value_or *)
+| VValueOrC (t : bool) (j : nat) (x : Z)       (* Tj d(x); { Tj r = v.value_or(d); }            j = the value alternative *)
+| VValueOrM (t : bool) (j : nat) (x : Z).      (* Tj d(x); { Tj r = move(v).value_or(move(d)); } *)
 
 Section Own.
 Variable fl : bool.            (* the instrumented types have move operations *)
@@ -104,6 +107,11 @@ Definition step_var (s : nat * nat) (m : vmem) (o : oop) : G (nat * nat) :=
             asg (cid t) (sel t s) (mv fl (Slot (cid t) (sel t s))) ++
             asg (cid t) (sel t s) (mv fl (Slot 2 (sel t s))) ++
             dst 2 (sel t s)) s
+  | VValueOrC t j x =>
+      (* has_value() ? **this : static_cast<T>(forward<U>(default)); the result dies in the caller *)
+      done (ext_for j x (con 2 j (Copy (if sel t s =? j then Slot (cid t) j else Ext 0)) ++ dst 2 j)) s
+  | VValueOrM t j x =>
+      done (ext_for j x (con 2 j (mv fl (if sel t s =? j then Slot (cid t) j else Ext 0)) ++ dst 2 j)) s
   | _ => ret s
   end.
 
